@@ -394,6 +394,32 @@ def Ctx.run (c : Ctx D L) : List (CCall L) → Outcome (Ctx D L × List Value)
     | .outOfFuel => .outOfFuel
   | .q q :: cs => Ctx.run (c.cquery env q).1 cs
 
+/-- what a client sees of one C call: the return value of an operation or the answer of a getter -/
+inductive CEv where
+  | ret (v : Value)
+  | ans (a : CAns)
+deriving DecidableEq
+
+/-- run calls; collect EVERYTHING the client sees (slot reads without Enumerate included) -/
+def Ctx.trace (c : Ctx D L) : List (CCall L) → Outcome (Ctx D L × List CEv)
+  | [] => .ok (c, [])
+  | .op o :: cs =>
+    match c.cop env o with
+    | .ok (c', v) => (Ctx.trace c' cs).map fun r => (r.1, .ret v :: r.2)
+    | .panic p => .panic p
+    | .outOfFuel => .outOfFuel
+  | .q q :: cs => (Ctx.trace (c.cquery env q).1 cs).map fun r => (r.1, .ans (c.cquery env q).2 :: r.2)
+
+/-- `chewing_Reset` (capi/src/io.rs, after the second C17 fix): the editor is cleared and the iterator
+    slots are dropped -/
+def Ctx.reset (c : Ctx D L) : Ctx D L := { ed := c.ed.clear env }
+
+/-- `chewing_Reset` as it was: only `ctx.editor.clear()`, the slots kept -/
+def Ctx.resetBeforeFix (c : Ctx D L) : Ctx D L := { c with ed := c.ed.clear env }
+
+/-- `chewing_new2`: a new editor, empty slots -/
+def Ctx.fresh (cfg : Config D L) : Ctx D L := { ed := Editor.fresh cfg }
+
 def CCall.strip : List (CCall L) → List (Op L)
   | [] => []
   | .op o :: cs => o :: CCall.strip cs
